@@ -126,7 +126,7 @@ fn main() {
     if ctx.has("listvar") {
         special::listvars(&mut ctx, count);
     }
-    if ctx.has("meta") || ctx.has("enc") || ctx.has("dec") || ctx.has("app") {
+    if ctx.has("meta") || ctx.has("enc") || ctx.has("dec") || ctx.has("app") || ctx.has("decalloc") {
         generated::run_catalogue(&mut ctx);
     }
     extra::run(&mut ctx, &args);
